@@ -163,6 +163,54 @@ Theorem C09_preproc_same_db_outside_finding : forall o,
 Proof. exact preproc_stmt. Qed.
 Print Assumptions C09_preproc_same_db_outside_finding.
 
+(* white space.  The preprocessor's line loop writes every line that is neither empty, a comment, a % line
+   nor a Z line exactly as it read it (lines are what bufio.ScanLines delivers): white space at the end
+   of a line belongs to its last field and stays, white space at its start stays too. *)
+Theorem C09_preproc_passthrough_exact : forall o pserial l,
+  is_ignored l = false -> nth 0 l 0 <> 37 -> nth 0 l 0 <> 90 ->
+  pre_line o pserial l = Ok ([l], []).
+Proof. exact pre_line_exact. Qed.
+Print Assumptions C09_preproc_passthrough_exact.
+
+(* C09_preproc_same_db_outside_finding for the widened guard wf_file_ws (Proofs/Preproc.v): besides the
+   lines of wf_file (which already admits any white space at the end of a pass-through line), every
+   written-through line that the compiler - after stripping leading BLANKS only - skips or accepts
+   without feeding the accumulator: lines that begin with blanks, white-space lines.  Still excluded,
+   because the two tools really differ there: % lines behind blanks, and lines that begin with other
+   white space (the compiler rejects them, ErrBadRType; the preprocessor writes them through, so the
+   preprocessed text is rejected as well - checked by the harness as consistent rejection). *)
+Theorem C09_preproc_same_db_ws_outside_finding : forall o,
+  (forall a, wf_bytes a -> length a = 16%nat -> o_parse_ip o (o_print_ip o a) = Some a) ->
+  o_parse_ip o [] = None ->
+  (forall a, contains 44 (o_print_ip o a) = false) ->
+  forall v2 serial pserial rearrange,
+  serial <= max32 ->
+  pserial = serial \/ pserial = 0 ->
+  rearrange [] = [] ->
+  (forall ns r, In r (rearrange ns) ->
+     (exists lmap ip ml null locid, r = RRangePoint lmap ip ml null locid) /\ wf_recordb o r = true) ->
+  forall f, wf_file_ws o v2 serial f ->
+  exists body nets kvs,
+    pre_go o pserial f = Ok (body, nets) /\
+    preprocess o rearrange pserial f = Ok (body ++ map (marshal o) (rearrange nets)) /\
+    compile o rearrange v2 serial f = Ok kvs /\
+    forall pts, Permutation pts (rearrange nets) ->
+      exists kvs', compile o rearrange v2 serial (body ++ map (marshal o) pts) = Ok kvs' /\
+                   Permutation kvs' kvs.
+Proof. exact preproc_ws_stmt. Qed.
+Print Assumptions C09_preproc_same_db_ws_outside_finding.
+
+(* non-vacuity: a TXT line ending in a blank, a line of one blank, a line of one TAB, an indented TXT line
+   ending in a TAB: in the guard, preprocessed to itself byte for byte, and the compiled TXT data ends
+   with the blank *)
+Example C09_ws_file_example :
+  wf_file_ws o_plain false 7 ws_file /\
+  preprocess o_plain (fun _ => []) 7 ws_file = Ok ws_file /\
+  exists k v rest, compile o_plain (fun _ => []) false 7 ws_file = Ok ((k, v) :: rest) /\
+    last v 0 = 32 /\ length rest = 2%nat.
+Proof. exact ws_file_example. Qed.
+Print Assumptions C09_ws_file_example.
+
 (* F12 at file level: the one-line file of the F12 witness, preprocessed with serial 7 and compiled
    with default serial 7, gives different records *)
 Theorem C09_preproc_f12_refuted :
